@@ -9,6 +9,7 @@ from .. import crules
 def run(check, ctx):
     repo = ctx.repo
     cdb = ctx.cdb
+    chacha_seek_rows(check, repo)
     tu = cdb.tu("src/raw_ctr.c")
     code = cdb.macro_int(tu, "ERR_CTR_REPEATED_KEY_STREAM")
     mod = repo.module("Crypto.Cipher._mode_ctr")
@@ -41,3 +42,57 @@ def run(check, ctx):
     check.ob("F", "F|code|ctr.produced", ("i32 %d" % code) in body, "src/raw_ctr.c", 0,
              extracted="CTR_encrypt %s the value %s" % ("returns/stores" if ("i32 %d" % code) in body else "never produces", hex(code)),
              expected="CTR_encrypt reports ERR_CTR_REPEATED_KEY_STREAM")
+
+
+def chacha_seek_rows(check, repo):
+    """ChaCha20.seek(position): whatever reaches the native layer is the caller's block number and offset, not a value
+    reduced by the conversion to C integers; positions that do not fit are refused with ValueError."""
+    from ..absint import Interp
+    from ..absstate import State
+    from ..absval import UNK
+    CH = "Crypto.Cipher.ChaCha20"
+    mod = repo.module(CH)
+    fn = repo.func(mod, "ChaCha20Cipher.seek")
+    wrong = []
+    n = 0
+    for pos in (-64, -1, 0, 1, 63, 64, 65, (1 << 38) - 64, 1 << 38, (1 << 38) + 5, (1 << 70) - 64, 1 << 70, (1 << 70) + 64, 1 << 102, (1 << 134) + 64):
+        seen = []
+
+        def m_c_ulong(i, a, kw, st, node):
+            v = a[0] if a else 0
+            return ("c_ulong", v & ((1 << 64) - 1), v) if isinstance(v, int) else v
+        it = Interp(repo, max_depth=2, extra_models={"Crypto.Util._raw_api.c_ulong": m_c_ulong})
+        it.ffi_models = {"chacha20_seek": lambda i, a, kw, st, node, seen=seen: seen.append(list(a)) or 0}
+        st = State()
+        me = it.new_obj(st, mod, repo.cls(mod, "ChaCha20Cipher"), havoc=False)
+        st.heap[me.ident].update({"_state": it.new_obj(st, label="state"), "_name": "ChaCha20", "nonce": b"n" * 8})
+        res = it.run(mod, fn, {"position": pos}, self_obj=me, state=st)
+        n += 1
+        if res.rejected():
+            if 0 <= pos < (1 << 70):
+                wrong.append("seek(%s) is refused in Python although the 64-bit block counter can hold it" % (pos if abs(pos) < 1000 else "2^%d%+d" % (pos.bit_length() - 1, pos - (1 << (pos.bit_length() - 1)))))
+            elif set(res.raise_classes()) - set(["ValueError"]):
+                wrong.append("seek(%d bits) raises %s" % (pos.bit_length(), res.raise_classes()))
+            continue
+        if not seen:
+            wrong.append("seek(%d): the native seek is not called" % pos)
+            continue
+        a = seen[0]
+        vals = []
+        for x in a[1:4]:
+            if isinstance(x, tuple) and x and x[0] == "c_ulong":
+                vals.append((x[1], x[2]))
+            elif isinstance(x, int):
+                vals.append((x, x))
+            else:
+                vals.append((None, None))
+        (hi, hi_raw), (lo, lo_raw), (off, off_raw) = vals
+        if None in (hi, lo, off):
+            wrong.append("seek(%d): arguments of the native seek are not determined (%r)" % (pos, a[1:4]))
+        elif hi != hi_raw or lo != lo_raw or pos < 0 or (hi << 32 | lo) * 64 + off != pos or lo >> 32 or hi >> 32 or off >= 64:
+            wrong.append("seek(2^%d%+d) reaches the native layer as block %#x offset %d: the position was reduced by the conversion "
+                         "to C integers (silent wrap-around)" % (max(pos.bit_length() - 1, 0), pos - (1 << max(pos.bit_length() - 1, 0)) if pos > 0 else pos,
+                                                               (hi << 32) | lo, off))
+    check.ob("G", "G|chacha20.seek.position", not wrong, mod.path, fn.lineno,
+             extracted="; ".join(wrong[:3]) if wrong else "%d positions: accepted ones reach chacha20_seek unchanged (block = high*2^32 + low, offset < 64); negative positions and block numbers >= 2^64 raise ValueError" % n,
+             expected="a position beyond the key stream is an error, never another position (ctypes' c_ulong wraps modulo 2^64)")
